@@ -291,6 +291,12 @@ def run_renamed(R):
 def chain_observer(log):
     def observe(G, i):
         before = repr(sorted((repr(k), sorted(map(repr, v))) for k, v in G._next.items()))
+        # the caller uses the read-only API on the graph before asking for its components (none of these may change G)
+        ks = list(G._next)
+        call(lambda: (G.nodes(), G.edges(), G.sources()))
+        if ks:
+            call(lambda: G.get_reachable_set_from([ks[i % len(ks)]]))
+            call(lambda: G.get_reachable_set_from(list(ks)))
         r, notes = observe_sccs(G)
         after = repr(sorted((repr(k), sorted(map(repr, v))) for k, v in G._next.items()))
         return {'sccs': list(r), 'notes': notes, 'unchanged': before == after}
